@@ -320,8 +320,11 @@ def _run(prop, a, seed, t0):
         "property_id": prop, "tier": a.tier, "seed": seed, "level": level, "coverage": cov,
         "assumptions": assumptions, "wall_s": round(time.time() - t0, 2), "violations": len(violations),
     }
-    os.makedirs(os.path.join(HERE, "evidence"), exist_ok=True)
-    with open(os.path.join(HERE, "evidence", prop + ".json"), "w") as f:
+    # evidence/ only ever holds runs against /repo itself; a run against a scratch copy (VERIF_REPO=...) writes elsewhere
+    evdir = os.path.join(HERE, "evidence") if os.path.realpath(os.environ.get("VERIF_REPO", "/repo")) == "/repo" else os.path.join(HERE, "out", "evidence_scratch")
+    os.makedirs(evdir, exist_ok=True)
+    ev["coverage"]["tree"] = os.environ.get("VERIF_REPO", "/repo")
+    with open(os.path.join(evdir, prop + ".json"), "w") as f:
         json.dump(ev, f, indent=1, default=str)
 
     # ---- 6. verdict ----------------------------------------------------------------------------
